@@ -7,7 +7,6 @@ NA = {
  "C01": "Decryption error <= configured bound and exact plaintext position are magnitudes of run-time integers under all radices/precisions; no shape-level necessary condition beyond what C06 (noise/mask call discipline) already decides. Static analysis does not apply.",
  "C03": "Key-switch/automorphism/trace/packing correctness is 'decrypts to the expected image within a noise bound': gadget arithmetic and Galois exponent arithmetic over run-time values; no sound static argument in reach.",
  "C04": "External product / CMux selects m1*m2 within noise: polynomial arithmetic and noise magnitudes, run-time numeric facts.",
- "C07": "DFT/NTT-domain products bit-equal to exact convolution: floating-point error and lazy modular reduction budgets are numeric ranges no structural rule bounds.",
  "C14": "Blind rotation returns the table entry at the mod-switched index: index/drift/sign arithmetic and homomorphic noise.",
  "C15": "End-to-end encrypted integer pipeline (bootstrap, re-preparation, noise growth); its table-function and operation-to-table binding clause is decided under C13, its threading clause under C20.",
 }
@@ -59,6 +58,11 @@ CLAIMS = {
          "DESIGN.md §8 (C05)",
          "Trusted: cnv_* kernels shift by `hi` limbs and vec_znx_big_normalize by `lo` bits; the `+ base2k` of the law is read off the code (identical in all seven products). Thin, clause-scoped claim.",
          "path-wise piecewise-linear identity over expressions extracted from MIR + sibling agreement", True),
+ "C07": ("other",
+         "Only the limb bookkeeping of C07 is decided - the clauses 'truncated to the requested limbs' and 'transform-domain add/sub/copy/limb-select act limb-wise' - on MIR of the DFT-domain shape functions of both families (vec_znx_dft, svp, vmp, convolution): overwrite-type operations, including dft_apply with its (step, offset) selection and selections that point past the last limb, hand every limb of the selected result column to a kernel or zero it (WR-1, exact over all orderings of the operand sizes); accessors use the operand's own column (WR-2); vector-matrix products with a limb offset zero-fill from exactly one stride after the last written limb (WR-4); the block extraction of the convolution covers every row of its destination block (WR-7) and reads no more rows than the source has limbs (MS-8); the FFT64 and NTT120 shape functions bound their work by the same quantities (BK-9); wrapping integer products use a full-width multiply on AVX (BK-8). Floating-point error, lazy-reduction budgets, CRT reconstruction, butterflies and the identity of forward/inverse transforms are not decided.",
+         "DESIGN.md §8 (C07)",
+         "Trusted: kernels compute the transform / product on the limbs they are given. Thin, clause-scoped claim built from rules shared with C10, C11 and C17 (four of the repaired defects - 509bc53, c0d9a18, a964edc, 2ac01c0 - sit in these files).",
+         "MIR loop/range extraction + exact min/max lattice evaluation of limb coverage + family comparison", True),
  "C08": ("other",
          "Only the structure of the carry chains of C08 is decided, on MIR of the normalisation / shift shape functions (small and big accumulators, FFT64 and NTT120 families): the final normalisation step closes a chain (NRM-1); the carry buffer is initialised before a middle / final step reads it on every feasible path, zero-trip loops and single-limb cases included (WR-6); a right shift passes the carry through exactly size(operand) + steps normalisation steps for every operand size, result size and shift - a piecewise-linear identity over the loop trip counts, so that the carry out of the top limb lands on the right limb also when the shift exceeds the precision of the result (NRM-2); every limb of the selected result column is produced and no other column is addressed (WR-1/WR-2 on the C08 files); the AVX step kernels apply the digit / carry helpers per lsh branch as often as their reference twins (BK-6). Digit arithmetic, rounding, balanced digits, cross-radix accumulation and integer encoding / decoding are not decided.",
          "DESIGN.md §8 (C08), §9 rows 17, 20, 53",
